@@ -1,5 +1,6 @@
 //! bvsim: the simulation driver. Links the bindgen library built from /repo's
 //! working tree with `--cfg bindgen_verif`.
+mod c11;
 mod c15;
 mod job;
 mod util;
@@ -11,6 +12,7 @@ fn handle(req: &Value) -> Value {
     match util::jstr(req, "op").unwrap_or("") {
         "gen" => {
             let j = job::Job::from_json(&req["job"]);
+            bindgen::verif::salt::set(util::ju64(req, "salt").unwrap_or(0));
             let opts = job::RunOpts {
                 fix: req.get("fix").filter(|f| !f.is_null()).map(job::fix_config_from_json),
                 want_text: util::jbool(req, "want_text"),
@@ -19,6 +21,7 @@ fn handle(req: &Value) -> Value {
             };
             job::run_job(&j, &opts)
         }
+        "c11" => c11::op_scenario(req),
         "c15" => c15::op_sim(req),
         "c15-replay" => c15::op_replay(req),
         "c15-real" => c15::op_real(req),
@@ -51,6 +54,13 @@ fn main() {
     let args: Vec<String> = std::env::args().collect();
     match args.get(1).map(|s| s.as_str()) {
         Some("worker") => worker(),
+        Some("one") => {
+            // one request from a file, one response on stdout (used for child
+            // processes that run under the LD_PRELOAD shim)
+            let text = std::fs::read_to_string(&args[2]).expect("request file");
+            let req: Value = serde_json::from_str(&text).expect("request json");
+            println!("{}", handle(&req));
+        }
         Some("tokdiff") => {
             let a = std::fs::read_to_string(&args[2]).unwrap();
             let b = std::fs::read_to_string(&args[3]).unwrap();
